@@ -314,6 +314,32 @@ def abstract_bfs(acc, limit_states=20000):
 # ---------------------------------------------------------------------------------------
 # part 2: stream failure at every call index, every class
 # ---------------------------------------------------------------------------------------
+def bad_tagged_values(ws, inst):
+    """[(instance, where)]: inst with the LAST integer member of a tagged struct (or of the first item of a tagged struct
+    array) replaced by 2**70, so that encoding dies after part of the tagged value has been written."""
+    out = []
+    for f in ws.fields:
+        if f.tag is None or f.nested is None:
+            continue
+        ints = [g for g in f.nested.fields if g.kafka_type in ("int8", "int16", "int32", "int64") and not g.array and g.tag is None]
+        if len(f.nested.fields) < 2 or not ints:
+            continue
+        cur = getattr(inst, f.name)
+        try:
+            if f.array:
+                if not cur:
+                    continue
+                bad = (dataclasses.replace(cur[0], **{ints[-1].name: 2**70}),) + tuple(cur[1:])
+            else:
+                if cur is None:
+                    continue
+                bad = dataclasses.replace(cur, **{ints[-1].name: 2**70})
+            out.append((dataclasses.replace(inst, **{f.name: bad}), f"{f.name}.{ints[-1].name}"))
+        except Exception:  # noqa: BLE001
+            continue
+    return out
+
+
 def _task_faults(arg):
     from kio.serial import entity_reader, entity_writer
 
@@ -363,6 +389,30 @@ def _task_faults(arg):
                         break
                 else:
                     acc.outcome("writer unaffected after injected failure")
+            # a value that makes the writer die INSIDE a tagged struct / array (a member out of range): the part of the
+            # tagged value written so far must not leak into later calls
+            for bad_inst, where in bad_tagged_values(ws, insts[vi]):
+                acc.add("evaluations")
+                acc.add("fault_positions")
+                case = {"class": ws.path, "wire": wires[vi], "bad_tagged_member": where}
+                try:
+                    w_(io.BytesIO(), bad_inst)
+                    continue  # not rejected (e.g. the member is not range-checked): nothing to learn
+                except Exception:  # noqa: BLE001
+                    pass
+                for vj in (0, vi):
+                    b = io.BytesIO()
+                    try:
+                        w_(b, insts[vj])
+                        got = b.getvalue()
+                    except Exception as e:  # noqa: BLE001
+                        got = repr(e).encode()
+                    if got != gold[vj]:
+                        acc.report(violation("C19", "faults", "C19/faults/writer-affected-by-earlier-failure-inside-a-tagged-value", ws.path,
+                                             dict(case, then_value=vj), gold[vj].hex()[:300], got.hex()[:300], (idx, vi, 9999)))
+                        break
+                else:
+                    acc.outcome("writer unaffected after a failure inside a tagged value")
             for j in range(nr):
                 acc.add("evaluations")
                 acc.add("fault_positions")
@@ -516,6 +566,83 @@ def _task_sched(arg):
     return r
 
 
+# ---------------------------------------------------------------------------------------
+# equal twins: values that compare (and hash) equal but have different encodings
+# ---------------------------------------------------------------------------------------
+TWIN_SET = [
+    # 0.0 == -0.0: one sign bit apart on the wire
+    "kio.schema.alter_client_quotas.v1.request:AlterClientQuotasRequest",
+    "kio.schema.alter_client_quotas.v0.request:AlterClientQuotasRequest",
+    # the two instants of a repeated DST hour presented in their zone: same wall clock, same tzinfo, equal and
+    # hash-equal by PEP 495, one hour apart on the wire
+    "kio.schema.create_delegation_token.v3.response:CreateDelegationTokenResponse",
+    "kio.schema.create_delegation_token.v0.response:CreateDelegationTokenResponse",
+]
+
+
+def _twin_pick(which):
+    def pick(alts):
+        if all(isinstance(a, float) for a in alts):
+            return 0.0 if which == 0 else -0.0
+        if bridge.FOLD_TWINS[0] in alts:
+            return bridge.FOLD_TWINS[which]
+        return _second(alts)
+
+    return pick
+
+
+def _task_twins(path):
+    """Every sequence up to length 3 over {write A, write B, read A, read B} on one class, A == B as Python values
+    with different encodings: whatever was encoded or decoded before, each call gives the result of its own value."""
+    from kio.serial import entity_reader, entity_writer
+
+    acc = Acc(max_samples=1)
+    ws = wire_schema(load_class(path))
+    tree = values.build(ws, "value", 300)
+    wires = [pick_variant(tree, _twin_pick(0)), pick_variant(tree, _twin_pick(1))]
+    golden = [bytes(refcodec.encode(ws, w, bridge.wire_default).buf) for w in wires]
+    old = bridge.PRESENT_FOLD
+    bridge.PRESENT_FOLD = True
+    try:
+        insts = [bridge.to_entity(ws, w) for w in wires]
+    finally:
+        bridge.PRESENT_FOLD = old
+    if golden[0] == golden[1]:
+        raise HarnessError(f"twins of {path} have one encoding")
+    equal = insts[0] == insts[1] and hash(insts[0]) == hash(insts[1])
+    acc.add("twin_subjects_equal_and_hash_equal", 1 if equal else 0)
+    ops = [("w", 0), ("w", 1), ("r", 0), ("r", 1)]
+    n = 0
+    for d in (1, 2, 3):
+        for seq in itertools.product(range(4), repeat=d):
+            n += 1
+            clear_caches()
+            acc.add("evaluations")
+            acc.add("twin_histories")
+            for step, oi in enumerate(seq):
+                kind, which = ops[oi]
+                case = {"class": path, "twin_history": [list(ops[i]) for i in seq], "failing_step": step}
+                try:
+                    if kind == "w":
+                        b = io.BytesIO()
+                        entity_writer(ws.cls)(b, insts[which])
+                        bad = None if b.getvalue() == golden[which] else ("wrong-bytes", golden[which].hex()[:300], b.getvalue().hex()[:300])
+                    else:
+                        v = entity_reader(ws.cls)(io.BytesIO(golden[which]))
+                        got = bridge.from_entity(ws, v)
+                        bad = None if bridge.same_wire(got, wires[which]) else ("wrong-value", short(wires[which], 300), short(got, 300))
+                except Exception as e:  # noqa: BLE001
+                    bad = (f"raised/{exc_name(e)}", "as on a fresh process", repr(e)[:300])
+                if bad is not None:
+                    acc.report(violation("C19", "twins", f"C19/twins/{'write' if kind == 'w' else 'read'}-of-an-equal-but-different-value/{bad[0]}",
+                                         path, case, bad[1], bad[2], (d, n)))
+                    break
+            else:
+                acc.outcome("equal twins keep their own encodings")
+    acc.sample({"class": path, "twin_encodings_differ_at": next(i for i, (x, y) in enumerate(zip(*golden)) if x != y), "values_equal": equal})
+    return acc.result()
+
+
 def run_c19(tier):
     run = Run("C19", tier, "model_checking")
     subjects()
@@ -543,6 +670,9 @@ def run_c19(tier):
     items = list(enumerate(hists))
     run.rng.shuffle(items)
     for res in pmap(_task_hist, chunks(items, max(1, len(items) // 256))):
+        run.merge(res)
+    # part 1c: equal twins
+    for res in pmap(_task_twins, TWIN_SET):
         run.merge(res)
     # part 1b: abstract-state BFS (in this process)
     acc = Acc()
@@ -607,7 +737,9 @@ def run_c19(tier):
         f"schedules at source-line granularity, preemption bound {1 if tier == 'quick' else '2 (1 for the 2000-point nested-vs-parent harness)'}"
         + ("" if tier == "quick" else ", plus opcode granularity in the scratch-buffer frames with bound 1")
         + f", {len(harnesses()) - 2} harnesses (warm/cold, same/different/nested classes; thorough adds two 3-thread harnesses at bound 1, where "
-        "the thread that continues after another ends is the lowest-numbered one unless a preemption says otherwise). Golden results come from the "
+        "the thread that continues after another ends is the lowest-numbered one unless a preemption says otherwise); (4) equal twins: on classes "
+        "with float64 / timestamp fields, every sequence up to length 3 of writing and reading two values that are == and hash-equal but "
+        "encode differently (0.0 / -0.0; the two instants of a repeated DST hour in their zone). Golden results come from the "
         "reference codec. Non-trivial = every history but the empty one, every fault position, every schedule"
     )
     c["exhaustive"] = not run.caps
@@ -629,6 +761,9 @@ def replay(prop, path):
         L = [tuple(x) for x in letters()]
         hist = tuple(L.index(tuple(op)) for op in case["history"])
         run_history(hist, acc, (0,))
+    elif "twin_history" in case:
+        res = _task_twins(case["class"])  # the 84 sequences of that class, the recorded one among them
+        acc.violations = {v["signature"]: v for v in res["violations"]}
     elif "harness" in case:
         setup, make_bodies, expected = harnesses()[case["harness"]]
         opf = OPCODE_FUNCS if case.get("opcode_points") else ()
